@@ -27,7 +27,7 @@ THEOREMS = ['C15.quotes_table_ok', 'C15.bool_table_ok', 'C15.lists_table_ok', 'C
             'C15.validators_check_before_store', 'C15.guarded_verdict', 'C15.guarded_string_roundtrip', 'C15.only_some_strings_roundtrip',
             'C15.json_roundtrip', 'C15.float_roundtrip', 'C15.regexp_roundtrip',
             'C15.nw_table_ok', 'C15.normalized_value_roundtrip', 'C15.normalize_idempotent', 'C15.normalized_file_roundtrip',
-            'C15.call_fresh_noop', 'C15.call_reread_same',
+            'C15.call_fresh_noop', 'C15.call_reread_same', 'C15.flush_quiet', 'C15.flush_interleaved_counterexample',
             'C15.save_load_roundtrip', 'C15.save_load_global', 'C15.save_load_counterexample', 'C15.rt_string', 'C15.rt_normalized', 'C15.rt_bool', 'C15.rt_int']
 TRUSTED = ['Lean 4.33.0 kernel; axioms ⊆ {propext, Classical.choice, Quot.sound}',
            'harness/extractors/registry.py (constants of src/registry.py, utils/str.py, class inventory → Gen/Registry.lean)',
@@ -1228,7 +1228,12 @@ def witness_status(I):
     for f in verdict.load_findings(PROPERTY):
         w = f['witness']; fid = f['id']
         try:
-            if 'names' in w:
+            if 'plan' in w:
+                R_ = Run()
+                ok = flush_case(I, R_, w['class'], w['default'], [(tuple(a), b) for a, b in w['setup']],
+                                {int(i): v for i, v in w['plan'].items()})
+                st[fid] = (not ok, R_.cases[0].oracle_msg or 'every written line is one the node had before or after the flush')
+            elif 'names' in w:
                 back = I.registry.split(I.registry.join(w['names']))
                 st[fid] = (back != w['names'], 'split(join(%r)) = %r' % (w['names'], back))
             else:
@@ -1671,6 +1676,110 @@ def stream_tree_any(I, R, r, n_hist, maxops=10):
     finally:
         world.ircs[:] = saved_ircs
 
+
+# ------------------------------------------------------------------------------------------
+# registry.close while another thread uses the tree (deterministic interleavings)
+# ------------------------------------------------------------------------------------------
+def flush_interleaved(I, T, plan, snap=None):
+    """run registry.close on T.root; just before the i-th listed node is written, perform the operations plan[i]
+    (what a thread switch to a command of a threaded plugin would do at that point)"""
+    reg = I.registry
+    orig = reg.Group.help
+    counter = [0]
+    def hooked(self):
+        if self._name.lower().startswith('vt.var'):
+            i = counter[0]; counter[0] += 1
+            for op in plan.get(i, []):
+                if op[0] == 'set': T.set_text(tuple(op[1]), op[2])
+                elif op[0] == 'reset_net': T.reset_net(op[1])
+                else: T.reset_chan(op[1], op[2])
+                if snap is not None: snap()
+        return orig(self)
+    reg.Group.help = hooked
+    try:
+        reg.close(T.root, I.fn)
+    finally:
+        reg.Group.help = orig
+    return open(I.fn, encoding='utf-8').read()
+
+def enc_plan(plan, n):
+    out = []
+    for i in range(n):
+        fs = []
+        for op in plan.get(i, []):
+            if op[0] == 'set': fs.append('set;%s;%s' % (','.join([op[1][0]] + [wire.enc(x) for x in op[1][1:]]), wire.enc(op[2])))
+            elif op[0] == 'reset_net': fs.append('rnet;' + wire.enc(op[1]))
+            else: fs.append('rchan;%s;%s' % (wire.enc_opt(op[1]), wire.enc(op[2])))
+        out.append('|'.join(fs) if fs else '-')
+    return out
+
+def flush_case(I, R, k, default, setup, plan, kind='flush'):
+    """one history: `setup` (list of set ops), then a flush with `plan` interleaved; compared with the model; the oracle asks
+    that every written line is a line the node had when the flush began, at some moment during it, or when it ended"""
+    world = I.world; saved_ircs = list(world.ircs); world.ircs[:] = [_StubIrc(n) for n in NETS]
+    try:
+        I.reset_cache()
+        T = RealTree(I, k, 'chan', default)
+        pr = PR(TREE_ALPHA + 'é中')
+        lines = ['l_boot\t%s\t%s\t%s\t1\t1\t%s\t-' % (k, pr, enc_val(T.dflt), wire.enc('vt.var'))]; impl = ['up']
+        for (w, text) in setup:
+            res = T.set_text(tuple(w), text)
+            lines.append('l_set\t%s\t%s' % (wire.enc(text), enc_where(tuple(w)))); impl.append(res)
+        def ser_lines():
+            out = set()
+            for (nm, nd) in T.root.getValues(getChildren=True):
+                if hasattr(nd, 'value'):
+                    try: out.add('%s: %s' % (nm, nd.serialize()))
+                    except Exception: pass
+            return out
+        before = ser_lines()
+        nlisted = len([1 for (nm, nd) in T.root.getValues(getChildren=True) if hasattr(nd, 'value')])
+        during = set()
+        text = flush_interleaved(I, T, plan, snap=lambda: during.update(ser_lines()))
+        after = ser_lines() | during
+        lines.append('\t'.join(['l_save_il'] + enc_plan(plan, nlisted))); impl.append(wire.enc(''.join(l + '\n' for l in file_value_lines(text))))
+        lines.append('l_dump'); impl.append(T.enc_dump())
+        odd = [l for l in file_value_lines(text) if l not in before and l not in after]
+        has_reset = any(op[0].startswith('reset') for ops_ in plan.values() for op in ops_)
+        ok = not odd
+        c = Case({'op': 'flush', 'class': k, 'default': default, 'setup': [[list(w), t] for w, t in setup],
+                  'plan': {str(i): v for i, v in plan.items()}}, impl='\n'.join(impl), oracle_ok=ok, kind=kind,
+                 oracle_msg='' if ok else 'the file written while other operations ran holds %r: lines the variables had neither before the flush (%r) nor during / after it (%r)' % (odd, sorted(before), sorted(after)),
+                 tags=('flush-il', 'flush-reset' if has_reset else 'flush-sets'), finding='C15-flush-interleaved-reset' if (has_reset and not ok) else None)
+        R.add_multi(c, lines, tree_post_flush)
+        return ok
+    finally:
+        world.ircs[:] = saved_ircs
+
+def tree_post_flush(outs, c, lines):
+    outs = list(outs)
+    for i, o in enumerate(outs):
+        if lines[i].startswith('l_save_il') and o != 'bad-op':
+            try: outs[i] = wire.enc(''.join(l + '\n' for l in file_value_lines(wire.dec(o))))
+            except Exception: pass
+    return '\n'.join(outs)
+
+def stream_flush_il(I, R, r, n_hist):
+    VAL = {'bool': ['on', 'off', 'toggle'], 'int': ['1', '5', '12', '-3'], 'plain': ['abc', 'x1', '"', 'a b'], 'space': ['a', 'a b c', 'x']}
+    for h in range(n_hist):
+        k = r.choice(sorted(VAL))
+        default = {'bool': False, 'int': 3, 'plain': 'dflt', 'space': ['d1']}[k]
+        def where():
+            y = r.random(); n = r.choice(NETS); c = r.choice(['#x', '&loc'])
+            return ['base'] if y < 0.2 else ['net', n] if y < 0.45 else ['chan', c] if y < 0.7 else ['netchan', n, c]
+        setup = [(where(), r.choice(VAL[k])) for _ in range(r.randint(1, 5))]
+        plan = {}
+        for i in range(6):
+            if r.random() < 0.45:
+                ops_ = []
+                for _ in range(r.randint(1, 2)):
+                    x = r.random()
+                    if x < 0.6: ops_.append(['set', where(), r.choice(VAL[k])])
+                    elif x < 0.8: ops_.append(['reset_net', r.choice(NETS)])
+                    else: ops_.append(['reset_chan', r.choice([None] + NETS), r.choice(['#x', '&loc'])])
+                plan[i] = ops_
+        flush_case(I, R, k, default, setup, plan)
+
 # ------------------------------------------------------------------------------------------
 # lazy re-reading: open_registry in the running process (Config reload / SIGHUP)
 # ------------------------------------------------------------------------------------------
@@ -1841,6 +1950,7 @@ def explore(ctx, scale, seed_stream='c15'):
     stream_tree(I, R, r, 250 * scale)
     stream_tree_any(I, R, r, 250 * scale)
     stream_lazy(I, R, r, 200 * scale)
+    stream_flush_il(I, R, r, 200 * scale)
     stream_live(I, R, r, 40 * min(scale, 10))
     stream_sweep(I, R, r, 6 if scale == 1 else 25)
     return I, R
@@ -1924,6 +2034,10 @@ def replay(ctx, path):
             out = bot.feed(b, 'own!u@h', b.irc.nick, cmd)
             print(cmd, '->', [m.args[-1] for m in out])
             print('    ', {('%s/%s' % (n, c)): node.getSpecific(network=n, channel=c)() for n in (None, b.irc.network) for c in (None, '#x', '#y')})
+    elif op == 'flush':
+        R_ = Run()
+        ok = flush_case(I, R_, inp['class'], inp['default'], [(tuple(a), b) for a, b in inp['setup']], {int(i): v for i, v in inp['plan'].items()})
+        print('now:', 'OK' if ok else R_.cases[0].oracle_msg)
     elif op == 'tree_any':
         world = I.world; world.ircs[:] = [_StubIrc(n) for n in NETS]
         I.reset_cache()
